@@ -5,4 +5,4 @@ Require Extraction.
 Require Import ExtrOcamlBasic.
 Extraction "model.ml"
   mkLat mkCache fresh_cache with_cache wf_lat getstate setstate roundtrip lat_eq lat_eq_noshape
-  py_eq py_ne round32 f32_overflows select_index_dtype close1.
+  py_eq py_ne round32 f32_overflows select_index_dtype close2.
